@@ -4,7 +4,7 @@
    The theorems are about the specification spec_a64 / spec_row derived from the ISA database; that the words of a64::Assembler are
    the words of this specification is checked per run on generated operands (tools/checks/c02.py), not proved. *)
 From Coq Require Import ZArith List Bool.
-From Verif Require Import A64.A64Tmpl A64.A64TmplProofs A64.A64Sem A64.A64SemProofs A64.A64InvProofs A64.A64RefusalProofs.
+From Verif Require Import A64.A64Tmpl A64.A64TmplProofs A64.A64Sem A64.A64SemProofs A64.A64InvProofs A64.A64RefusalProofs Codec.ImmModel.
 From VerifGen Require Import IsaA64Db.
 Import ListNotations.
 Local Open Scope Z_scope.
@@ -35,43 +35,58 @@ Theorem C02_fields_recovered : forall r ops w, In r rows -> spec_row r ops = Som
 Proof. intros r ops w Hin. apply spec_row_fields_recovered. exact (proj1 (forallb_forall row_wf rows) rows_wf r Hin). Qed.
 Print Assumptions C02_fields_recovered.
 
-(* Operands are recovered from the word (injectivity of the encoding on canonical operands), for the rows all of whose operand
-   syntaxes are inverted by unbind1: GP and SIMD&FP registers (SP/ZR distinction by form, view, arrangement, lane), plain/scaled/
-   signed/bounded immediates, condition codes, system registers, shifted-register modifiers, branch/literal displacements, base,
-   base+offset (incl. pre/post index), LDP/STP write-back (zero write-back in its normal form), register-index and post-index-by-
-   register addressing.
-   PARTIAL: rows with an extended-register operand, ADD/SUB immediate with optional lsl #12, bitfield aliases, move-wide with
-   shift, bitmask immediates and LDn/STn register lists (length rows - rows_inv_count of them) are not covered by this theorem (their
-   field values are still covered by C02_fields_recovered). *)
-Theorem C02_operands_recovered_partial : forall r ops w, In r rows -> row_inv r = true ->
+(* Operands are recovered from the word (the encoding is injective on canonical operands), for EVERY supported row and ALL operands the
+   specification accepts: decoding the word with the inverse operand map (decode_row: GP / SIMD&FP registers with SP/ZR distinction, view,
+   arrangement, lane, register lists; plain / scaled / signed / bounded immediates; condition codes; system registers; shift and extend
+   modifiers; ADD/SUB immediate with lsl #12; bitfield aliases; move-wide with shift; bitmask immediates through DecodeBitMasks (C17
+   logical_imm_sound); SIMD shift amounts; displacements; every addressing mode) returns the operands in canonical form (canon: don't-care
+   parts normalised, optional modifiers made explicit, zero write-back in its normal form). *)
+Theorem C02_operands_recovered : forall r ops w, In r rows ->
   spec_row r ops = Some w -> canon (r_ops r) ops = Some (decode_row r w).
-Proof. intros r ops w Hin. apply operands_recovered. exact (proj1 (forallb_forall row_wf rows) rows_wf r Hin). Qed.
-Print Assumptions C02_operands_recovered_partial.
+Proof.
+  intros r ops w Hin. apply operands_recovered.
+  - exact (proj1 (forallb_forall row_wf rows) rows_wf r Hin).
+  - exact (proj1 (forallb_forall row_inv rows) rows_all_inv r Hin).
+Qed.
+Print Assumptions C02_operands_recovered.
 
-(* the hypotheses are satisfiable: that many rows are in the scope of the theorem, and here is one accepted instance *)
-Example C02_operands_recovered_scope : Z.of_nat (length (filter row_inv rows)) = rows_inv_count /\ 0 < rows_inv_count.
-Proof. split; [exact rows_inv_counted | reflexivity]. Qed.
-
-(* Refusal is exact (same scope): the specification is undefined for an operand list exactly when the list is not made of valid
-   operands of the row's syntaxes, validity being the architectural range stated declaratively in A64RefusalProofs.valid1
-   (register id 0..30 or the SP/ZR id the form allows and the right width, immediate inside its field range and a multiple of its
-   scale, condition code 0..15, shift kind allowed and amount below the register width, displacement aligned and inside the signed
-   range, base register 0..30|SP, offset aligned and inside the field's range, matching addressing mode). *)
-Theorem C02_refusal_exact_partial : forall r ops, In r rows -> forallb syn_inv (r_ops r) = true ->
+(* Refusal is exact, for EVERY supported row: the specification is undefined for an operand list exactly when the list is not made of
+   valid operands of the row's syntaxes, validity being the architectural range stated declaratively in A64RefusalProofs.valid1
+   (register id 0..30 or the SP/ZR id the form allows and the right width/view/arrangement; lane inside the vector; consecutive list;
+   immediate inside its field range and a multiple of its scale; bitmask immediate = some DecodeBitMasks value (C17
+   logical_imm_refused_iff); lsb + width inside the register; condition code 0..15; shift kind allowed and amount below the register
+   width; displacement aligned and inside the signed range; base register 0..30|SP; offset aligned and inside the field's range;
+   matching addressing mode). *)
+Theorem C02_refusal_exact : forall r ops, In r rows ->
   ((exists w, spec_row r ops = Some w) <-> ops_valid (r_ops r) ops) /\ (spec_row r ops = None <-> ~ ops_valid (r_ops r) ops).
 Proof.
-  intros r ops _ Hinv. destruct (refusal_exact (r_ops r) ops Hinv) as [A B]. unfold spec_row.
+  intros r ops _.
+  assert (Hinv : forallb syn_inv (r_ops r) = true) by (apply forallb_forall; intros s _; destruct s; reflexivity).
+  destruct (refusal_exact (r_ops r) ops Hinv) as [A B]. unfold spec_row.
   destruct (bind (r_ops r) ops) as [e|] eqn:E.
   - split; [split; [intros _; apply A; exists e; reflexivity | intros _; eexists; reflexivity] | split; [discriminate | intros N; apply B in N; discriminate]].
   - split; [split; [intros [w X]; discriminate | intros V; apply A in V; destruct V as [e X]; discriminate] | split; [intros _; apply B; reflexivity | reflexivity]].
 Qed.
-Print Assumptions C02_refusal_exact_partial.
+Print Assumptions C02_refusal_exact.
 
-(* Instruction level (all instructions except the MOV Rd,#imm pseudo instruction, whose words come from the C17 move-wide model and are
-   judged by execution in the check): whatever spec_a64_rows returns for a mnemonic is the single word of one database row of that mnemonic (or of its
+(* The MOV Rd, #imm pseudo instruction (the only multi-word output): whatever spec_mov_imm emits either is a MOVZ/MOVN(+MOVK) sequence on
+   register Rd that, decoded architecturally (mw_decode) and executed from any initial register value, leaves the immediate in the register
+   (1..4 words, Rd not SP), or is the single word ORR Rd|SP, ZR, #bitmask whose N:immr:imms fields denote the immediate (Rd not ZR). *)
+Theorem C02_mov_imm_correct : forall x rd v ws, spec_mov_imm x rd v = Some ws ->
+  let width := if x then 64 else 32 in
+  let imm := v mod 2 ^ width in
+  (gp_ok rd 63 = true /\ forall init, 0 <= init < 2 ^ 64 ->
+     exists ops, map Codec.ImmModel.mw_decode ws = map (fun m => Some (rd mod 32, m)) ops /\ Codec.ImmModel.mw_run init ops = Some imm /\ (1 <= length ws <= 4)%nat) \/
+  (gp_ok rd 31 = true /\ rd <> 63 /\ exists n r s, ws = [orr_imm_word x n r s (rd mod 32)] /\
+     0 <= n < 2 /\ 0 <= r < 64 /\ 0 <= s < 64 /\ Codec.ImmModel.decode_bit_masks width n s r = Some imm).
+Proof. exact mov_imm_correct. Qed.
+Print Assumptions C02_mov_imm_correct.
+
+(* Instruction level (all instructions except the MOV Rd,#imm pseudo instruction, covered by C02_mov_imm_correct): whatever spec_a64_rows returns for a mnemonic is the single word of one database row of that mnemonic (or of its
    LDUR/STUR fall-back mnemonic), so the three theorems above apply to it. *)
 Theorem C02_spec_a64_is_a_row : forall mn ops id ws, spec_a64_rows rows alt_table mn ops = Some (id, ws) ->
   exists r w, In r rows /\ r_id r = id /\ ws = [w] /\ spec_row r ops = Some w /\
               (r_mn r = mn \/ exists p, In p alt_table /\ fst p = mn /\ snd p = r_mn r).
 Proof. exact (spec_a64_from_row rows alt_table). Qed.
 Print Assumptions C02_spec_a64_is_a_row.
+
